@@ -84,6 +84,7 @@ class AsyncHTTP2Connection(AsyncConnectionInterface):
 
         self._read_exception: Exception | None = None
         self._reads_completed = 0
+        self._unsent_stream_ids: set[int] = set()
         self._write_exception: Exception | None = None
 
     async def handle_async_request(self, request: Request) -> Response:
@@ -284,6 +285,8 @@ class AsyncHTTP2Connection(AsyncConnectionInterface):
             # encoder state, which is now ahead of what the server will see.
             # We must not encode any further requests on this connection.
             self._connection_error = True
+            # Nothing has been sent for this stream, so it must not be reset.
+            self._unsent_stream_ids.add(stream_id)
             raise
         self._h2_state.increment_flow_control_window(2**24, stream_id=stream_id)
         await self._write_outgoing_data(request)
@@ -479,6 +482,9 @@ class AsyncHTTP2Connection(AsyncConnectionInterface):
         # to reset the stream. Otherwise it stays open, and keeps counting
         # towards the maximum number of concurrent streams.
         try:
+            if stream_id in self._unsent_stream_ids:
+                self._unsent_stream_ids.remove(stream_id)
+                raise h2.exceptions.ProtocolError()
             self._h2_state.reset_stream(
                 stream_id, error_code=h2.errors.ErrorCodes.CANCEL
             )
